@@ -23,6 +23,8 @@ CLAIMED["C05"] = ("reference-model monitor with hook-observed path: logdet / inv
                   "runtime monitoring: reference-model monitor; exact quadrature oracle over probe vectors recorded by the CG hook")
 CLAIMED["C06"] = ("reference-model monitor: cholesky / root_decomposition / root_inv_decomposition / eigh / eigvalsh / svd / diagonalization (every method string, torch.linalg spellings) on PSD / PD operators under size-threshold settings; reconstruction identities checked on the dense matrix (triangularity, R R^T = A or A^-1, orthonormality, U S V^T = A); Lanczos-based results (identified by lanczos.* hook events) against the orthogonal compression onto the space they span",
                   "runtime monitoring: reconstruction-identity monitor on the dense denotation, hook events selecting the Lanczos oracle")
+CLAIMED["C19"] = ("outcome monitor with torch as the judge: for every class x public operation taking a second operand or an index, bad operands (wrong / size-1 inner dimension, extra or missing dimensions, non-broadcastable batches, out-of-range int / tensor / list indices, square-only operations on rectangular operators) are first run against the dense matrix; only those torch rejects are judged, and the library must raise at the call or at evaluation of a lazy result",
+                  "runtime monitoring: raise/return outcome monitor against torch's own verdict on the densified operand")
 PENDING = {}
 def main():
     hooks_commits = []
